@@ -91,6 +91,11 @@ impl MaslLibrary {
             ));
         }
 
+        // dependencies form a set: keep them sorted and free of duplicates, which is also the form
+        // in which they are read back from a serialized library
+        let dependencies: Vec<LibraryNamespace> =
+            dependencies.into_iter().collect::<BTreeSet<_>>().into_iter().collect();
+
         if dependencies.len() > MAX_DEPENDENCIES {
             return Err(LibraryError::too_many_dependencies_in_library(
                 namespace,
